@@ -441,7 +441,7 @@ fn merge_op(name: &str, case: &MergeCase) -> String {
     s
 }
 
-fn write_config(out: &std::path::Path) {
+fn write_config(out: &std::path::Path, seed: u64) {
     let base = out.join("c10-sys");
     std::fs::create_dir_all(&base).unwrap();
     let t = std::fs::read_to_string("/repo/config/test.toml").unwrap();
@@ -453,7 +453,9 @@ fn write_config(out: &std::path::Path) {
         .replace("\"../data/index/\"", &format!("\"{b}/index/\""))
         .replace("\"../data/schema/\"", &format!("\"{b}/schema/\""))
         .replace("\"../data/logs\"", &format!("\"{b}/logs\""))
-        .replace("stdout_level = \"debug\"", "stdout_level = \"error\"");
+        .replace("stdout_level = \"debug\"", "stdout_level = \"error\"")
+        .replace("event_per_zone = 1", &format!("event_per_zone = {}", [1, 2, 3, 5][(seed % 4) as usize]))
+        .replace("fill_factor = 3", "fill_factor = 80");
     let p = base.join("cfg.toml");
     std::fs::write(&p, t).unwrap();
     unsafe { std::env::set_var("SNELDB_CONFIG", &p) };
@@ -461,7 +463,7 @@ fn write_config(out: &std::path::Path) {
 
 fn main() {
     let a = parse_args();
-    write_config(&a.out);
+    write_config(&a.out, a.seed);
     match a.stream.as_str() {
         "conv" => {
             let mut s = Stream::create(&a.out, "conv");
@@ -711,9 +713,417 @@ fn main() {
             }
             s.finish();
         }
+        "witness" => {
+            // fixed, minimal inputs for the proposed findings (replayed on the real code every run)
+            let rt = tokio::runtime::Builder::new_multi_thread().worker_threads(2).enable_all().build().unwrap();
+            let mut s = Stream::create(&a.out, "witness");
+            let st = |x: &str| SV::Utf8(x.to_string());
+            // W0/W1: compare triples
+            let triples: Vec<(Col, [SV; 3])> = vec![
+                (Col::Str, [st("9"), st("10"), st("1a")]),
+                (Col::Float, [SV::Int64((1 << 53) + 1), SV::Float64(9007199254740992.0), SV::Int64(1 << 53)]),
+                (Col::Str, [st("true"), st("1"), st("TRUE")]),
+            ];
+            let mut idx = 0u64;
+            for (c, vs) in &triples {
+                let pairs = [(0, 1), (1, 0), (1, 2), (2, 1), (0, 2), (2, 0), (0, 0), (1, 1), (2, 2)];
+                let imp: String = pairs.iter().map(|(x, y)| letter(vs[*x].compare(&vs[*y]))).collect();
+                s.case(&format!("cmp {} {} {}", tok(&vs[0]), tok(&vs[1]), tok(&vs[2])), &imp, true);
+                let bad = pairs.iter().find(|(x, y)| code_cmp(&vs[*x], &vs[*y]) != ref_cmp(*c, &vs[*x], &vs[*y]));
+                match bad {
+                    Some((x, y)) => s.oracle_fail(idx, pair_class(*c, &vs[*x], &vs[*y]),
+                        &format!("witness col={} compare({}, {}) = {:?}, typed order says {:?}", col_name(*c), tok(&vs[*x]), tok(&vs[*y]), code_cmp(&vs[*x], &vs[*y]), ref_cmp(*c, &vs[*x], &vs[*y]))),
+                    None => s.oracle_ok(),
+                }
+                idx += 1;
+            }
+            // W3/W4: ORDER BY s ASC LIMIT 1 over two shards
+            let merges: Vec<(Col, Vec<Vec<Vec<(SV, u64)>>>)> = vec![
+                (Col::Str, vec![vec![vec![(st("10"), 1)]], vec![vec![(st("9"), 2)]]]),
+                (Col::Float, vec![vec![vec![(SV::Float64(9007199254740992.0), 1)]], vec![vec![(SV::Int64((1 << 53) + 1), 2)]]]),
+            ];
+            for (c, shards) in merges {
+                let case = MergeCase { asc: true, limit: Some(1), offset: None, shards: shards.clone(), batch: 4, cap: 2 };
+                let out = rt.block_on(run_real(&case)).unwrap();
+                let imp = out.iter().map(|(_, id)| id.to_string()).collect::<Vec<_>>().join(" ");
+                s.case(&merge_op("merge", &case), &imp, true);
+                let mut all: Vec<(SV, u64)> = shards.into_iter().flatten().flatten().collect();
+                all.sort_by(|x, y| ref_cmp(c, &x.0, &y.0));
+                if ref_cmp(c, &all[0].0, &out[0].0) == Ordering::Equal {
+                    s.oracle_ok();
+                } else {
+                    let keys: Vec<SV> = all.iter().map(|x| x.0.clone()).collect();
+                    let class = first_departure(c, &keys).map(|(x, y)| pair_class(c, &keys[x], &keys[y])).unwrap_or("-");
+                    s.oracle_fail(idx, class, &format!("witness col={} ORDER BY ASC LIMIT 1 returned {} but the smallest key is {}", col_name(c), tok(&out[0].0), tok(&all[0].0)));
+                }
+                idx += 1;
+            }
+            s.finish();
+        }
+        "e2e" => e2e::run(&a),
         other => {
             eprintln!("unknown stream {other}");
             std::process::exit(2);
         }
+    }
+}
+
+// ------------------------------------------------------------------ end-to-end session
+mod e2e {
+    use super::*;
+    use snel_db::command::dispatcher::dispatch_command;
+    use snel_db::command::parser::parse_command;
+    use snel_db::engine::schema::SchemaRegistry;
+    use snel_db::engine::shard::manager::ShardManager;
+    use snel_db::shared::response::JsonRenderer;
+    use tokio::sync::RwLock;
+
+    pub struct Sys {
+        pub sm: Arc<ShardManager>,
+        pub reg: Arc<RwLock<SchemaRegistry>>,
+    }
+
+    impl Sys {
+        pub async fn cmd(&self, line: &str) -> Result<String, String> {
+            let cmd = parse_command(line).map_err(|e| format!("parse: {e:?}"))?;
+            let mut out: Vec<u8> = vec![];
+            dispatch_command(&cmd, &mut out, &self.sm, &self.reg, None, Some("bypass"), &JsonRenderer)
+                .await
+                .map_err(|e| format!("io: {e}"))?;
+            Ok(String::from_utf8_lossy(&out).to_string())
+        }
+    }
+
+    pub struct Resp {
+        pub status: u16,
+        pub msg: String,
+        /// per row: (cell of column `col`, event_id)
+        pub rows: Vec<(serde_json::Value, Option<u64>)>,
+    }
+
+    /// Reads the NDJSON frames of a streaming response; cells are located by header name.
+    pub fn parse_rows(resp: &str, col: &str) -> Resp {
+        let mut cidx = None;
+        let mut eidx = None;
+        let mut out = Resp { status: 0, msg: String::new(), rows: vec![] };
+        for line in resp.lines() {
+            let Ok(v) = serde_json::from_str::<serde_json::Value>(line) else { continue };
+            match v.get("type").and_then(|t| t.as_str()) {
+                Some("schema") => {
+                    out.status = 200;
+                    if let Some(cols) = v.get("columns").and_then(|c| c.as_array()) {
+                        cidx = cols.iter().position(|c| c.get("name").and_then(|n| n.as_str()) == Some(col));
+                        eidx = cols.iter().position(|c| c.get("name").and_then(|n| n.as_str()) == Some("event_id"));
+                    }
+                }
+                Some("batch") => {
+                    if let (Some(rows), Some(ci)) = (v.get("rows").and_then(|r| r.as_array()), cidx) {
+                        for r in rows {
+                            let cell = r.get(ci).cloned().unwrap_or(serde_json::Value::Null);
+                            let eid = eidx.and_then(|e| r.get(e)).and_then(|x| x.as_u64());
+                            out.rows.push((cell, eid));
+                        }
+                    }
+                }
+                Some("row") => {
+                    let cell = v.get("values").and_then(|x| x.get(col)).cloned().unwrap_or(serde_json::Value::Null);
+                    let eid = v.get("values").and_then(|x| x.get("event_id")).and_then(|x| x.as_u64());
+                    out.rows.push((cell, eid));
+                }
+                Some("end") => {}
+                _ => {
+                    if let Some(s) = v.get("status").and_then(|s| s.as_u64()) {
+                        out.status = s as u16;
+                        out.msg = v.get("message").and_then(|m| m.as_str()).unwrap_or("").to_string();
+                    }
+                }
+            }
+        }
+        out
+    }
+
+    /// A returned cell as a key of the column's type.
+    fn key_of_cell(c: Col, v: &serde_json::Value) -> Option<SV> {
+        match c {
+            Col::Int => v.as_i64().map(SV::Int64),
+            Col::Float => v.as_i64().map(SV::Int64).or_else(|| v.as_f64().map(SV::Float64)),
+            _ => match v {
+                serde_json::Value::String(s) => Some(SV::Utf8(s.clone())),
+                serde_json::Value::Number(n) => Some(SV::Utf8(n.to_string())), // to_json turns big unsigned strings into numbers (C07)
+                _ => None,
+            },
+        }
+    }
+
+    fn json_of(v: &SV) -> serde_json::Value {
+        match v {
+            SV::Null => serde_json::Value::Null,
+            SV::Boolean(b) => serde_json::json!(b),
+            SV::Int64(i) => serde_json::json!(i),
+            SV::Float64(f) => serde_json::json!(f),
+            SV::Timestamp(t) => serde_json::json!(t),
+            SV::Utf8(s) => serde_json::json!(s),
+            SV::Binary(_) => unreachable!(),
+        }
+    }
+
+    pub fn run(a: &snel_harness::out::Args) {
+        let rt = tokio::runtime::Builder::new_multi_thread().worker_threads(4).enable_all().build().unwrap();
+        let mut s = Stream::create(&a.out, "e2e");
+        let base = a.out.join("c10-sys");
+        let sys = rt.block_on(async {
+            let reg = Arc::new(RwLock::new(SchemaRegistry::new().expect("registry")));
+            let n = snel_db::shared::config::CONFIG.engine.shard_count;
+            let sm = Arc::new(ShardManager::new(n, base.join("cols"), base.join("wal")).await);
+            Sys { sm, reg }
+        });
+        let zone = snel_db::shared::config::CONFIG.engine.event_per_zone;
+        let fill = snel_db::shared::config::CONFIG.engine.fill_factor;
+        s.tally(&format!("cfg_event_per_zone_{zone}_fill_{fill}"));
+        for i in 0..a.cases {
+            if a.only.is_some_and(|o| o != i) {
+                continue;
+            }
+            let mut r = Rng::for_case(a.seed, "e2e", i);
+            let c = *r.pick(&[Col::Int, Col::Float, Col::PlainStr, Col::Str, Col::Int, Col::PlainStr]);
+            let ty = match c {
+                Col::Int => "int",
+                Col::Float => "float",
+                _ => "string",
+            };
+            let ev = format!("e{}x{}", a.seed, i);
+            let n_rows = match r.below(4) { 0 => 1 + r.below(5), 1 => 30 + r.below(40), _ => 5 + r.below(25) } as usize;
+            let n_ctx = 1 + r.below(5) as usize;
+            let mut rows: Vec<(SV, u64, usize)> = vec![]; // (key, k, ctx)
+            for j in 0..n_rows {
+                // conservative values (what survives storage unchanged is C07's subject): small ints,
+                // dyadic floats, short lowercase words; the `str` column adds number-looking words
+                let v = match c {
+                    Col::Int => SV::Int64(r.range(-40, 40)),
+                    Col::Float => if r.chance(1, 5) { SV::Int64(r.range(-20, 20)) } else { SV::Float64(r.range(-400, 400) as f64 / 8.0) },
+                    Col::PlainStr => {
+                        let n = 1 + r.below(3);
+                        SV::Utf8((0..n).map(|_| (b'a' + r.below(6) as u8) as char).collect())
+                    }
+                    _ => SV::Utf8(r.pick(&["9", "10", "1a", "100", "2", "b", "a", "07", "7", "1e1", "x"]).to_string()),
+                };
+                rows.push((v, j as u64 + 1, r.below(n_ctx as u64) as usize));
+            }
+            // where in the history the flushes happen
+            let n_flush = r.below(3) as usize;
+            let mut flush_at: Vec<usize> = (0..n_flush).map(|_| r.below(n_rows as u64 + 1) as usize).collect();
+            flush_at.sort();
+            let queries: Vec<(bool, bool, Option<usize>, Option<usize>, Option<i64>, Option<usize>, bool)> = (0..8)
+                .map(|_| {
+                    let ordered = !r.chance(1, 4);
+                    let pick = |r: &mut Rng| match r.below(5) { 0 => 0, 1 => n_rows + r.below(3) as usize, _ => r.below(n_rows as u64 + 1) as usize };
+                    let limit = if r.chance(1, 6) { None } else { Some(pick(&mut r)) };
+                    let offset = if r.chance(1, 2) { None } else { Some(pick(&mut r)) };
+                    let wh = if r.chance(1, 3) { Some(r.below(n_rows as u64 + 1) as i64) } else { None };
+                    let ctx = if r.chance(1, 5) { Some(r.below(n_ctx as u64) as usize) } else { None };
+                    (ordered, r.chance(1, 2), limit, offset, wh, ctx, r.chance(1, 8))
+                })
+                .collect();
+            let res: Result<Vec<(String, Resp, Resp, bool)>, String> = rt.block_on(async {
+                let d = sys.cmd(&format!("DEFINE {ev} FIELDS {{ k: \"int\", v: \"{ty}\" }}")).await?;
+                if !d.contains("200") && !d.to_lowercase().contains("ok") {
+                    return Err(format!("define failed: {d}"));
+                }
+                let mut fi = 0;
+                for (j, (v, k, ctx)) in rows.iter().enumerate() {
+                    while fi < flush_at.len() && flush_at[fi] == j {
+                        // everything stored so far must be in the memtable before the flush
+                        wait_visible(&sys, &ev, j).await?;
+                        sys.cmd("FLUSH").await?;
+                        fi += 1;
+                    }
+                    let payload = serde_json::json!({"k": k, "v": json_of(v)});
+                    let resp = sys.cmd(&format!("STORE {ev} FOR c{ctx} PAYLOAD {payload}")).await?;
+                    if !resp.contains("200") {
+                        return Err(format!("store rejected: {payload} -> {resp}"));
+                    }
+                }
+                wait_visible(&sys, &ev, rows.len()).await?;
+                while fi < flush_at.len() {
+                    sys.cmd("FLUSH").await?;
+                    fi += 1;
+                }
+                let mut out = vec![];
+                for (ordered, desc, limit, offset, wh, ctx, ret_k) in &queries {
+                    let mut q = format!("QUERY {ev}");
+                    if let Some(cx) = ctx { q.push_str(&format!(" FOR c{cx}")); }
+                    q.push_str(if *ret_k { " RETURN [k]" } else { " RETURN [v]" });
+                    if let Some(w) = wh { q.push_str(&format!(" WHERE k >= {w}")); }
+                    if *ordered { q.push_str(&format!(" ORDER BY v {}", if *desc { "DESC" } else { "ASC" })); }
+                    if let Some(l) = limit { q.push_str(&format!(" LIMIT {l}")); }
+                    if let Some(o) = offset { q.push_str(&format!(" OFFSET {o}")); }
+                    // the selection as the engine itself returns it without ORDER BY / LIMIT / OFFSET
+                    let mut bq = format!("QUERY {ev}");
+                    if let Some(cx) = ctx { bq.push_str(&format!(" FOR c{cx}")); }
+                    bq.push_str(if *ret_k { " RETURN [k]" } else { " RETURN [v]" });
+                    if let Some(w) = wh { bq.push_str(&format!(" WHERE k >= {w}")); }
+                    let base = parse_rows(&sys.cmd(&bq).await?, if *ret_k { "k" } else { "v" });
+                    let resp = sys.cmd(&q).await?;
+                    let base2 = parse_rows(&sys.cmd(&bq).await?, if *ret_k { "k" } else { "v" });
+                    let stable = base.status == 200 && base2.status == 200 && {
+                        let mut a: Vec<Option<u64>> = base.rows.iter().map(|x| x.1).collect();
+                        let mut b: Vec<Option<u64>> = base2.rows.iter().map(|x| x.1).collect();
+                        a.sort(); b.sort(); a == b
+                    };
+                    out.push((q, parse_rows(&resp, if *ret_k { "k" } else { "v" }), base, stable));
+                }
+                Ok(out)
+            });
+            s.tally(&format!("col_{}", col_name(c)));
+            s.tally(&format!("flushes_{}", flush_at.len()));
+            s.tally_n("events", n_rows as u64);
+            let answers = match res {
+                Ok(x) => x,
+                Err(e) => {
+                    // a write that never becomes visible, a rejected STORE …: other properties' subject
+                    s.tally("session_skipped");
+                    let _ = e;
+                    s.case(&format!("e2e {i}"), "session-skipped", false);
+                    continue;
+                }
+            };
+            let mut summary = vec![];
+            for ((ordered, desc, limit, offset, wh, ctx, ret_k), (q, resp, base, stable)) in queries.iter().zip(answers.iter()) {
+                let matching: Vec<&(SV, u64, usize)> = rows
+                    .iter()
+                    .filter(|(_, k, cx)| wh.map_or(true, |w| *k as i64 >= w) && ctx.map_or(true, |c0| *cx == c0))
+                    .collect();
+                let m = offset.unwrap_or(0);
+                let st = resp.status;
+                summary.push(format!("{st}:{}", resp.rows.len()));
+                s.tally(match (ordered, limit.is_some(), offset.is_some()) {
+                    (true, true, true) => "q_ordered_limit_offset",
+                    (true, true, false) => "q_ordered_limit",
+                    (true, false, false) => "q_ordered",
+                    (false, true, true) => "q_unordered_limit_offset",
+                    (false, true, false) => "q_unordered_limit",
+                    (false, false, false) => "q_unordered",
+                    (_, false, true) => "q_offset_without_limit",
+                });
+                s.tally_n("rows_returned", resp.rows.len() as u64);
+                if offset.is_some() && limit.is_none() {
+                    if st == 400 { s.oracle_ok(); } else {
+                        s.oracle_fail(i, "-", &format!("OFFSET without LIMIT not rejected: {q} -> {st} {}", resp.msg));
+                    }
+                    continue;
+                }
+                if st != 200 {
+                    let class = if *ordered && *ret_k && st == 500 && resp.msg.contains("order by field") { "order-field-not-returned" } else { "-" };
+                    s.oracle_fail(i, class, &format!("query failed: {q} -> {st} {}", resp.msg));
+                    continue;
+                }
+                // the reference selection is what the engine returns for the same FOR/WHERE without
+                // ORDER BY / LIMIT / OFFSET (whether that selection is right is C02/C03's subject)
+                if !*stable || base.rows.iter().any(|x| x.1.is_none()) {
+                    s.tally("q_base_unstable");
+                    continue;
+                }
+                let mut base_ids: Vec<u64> = base.rows.iter().filter_map(|x| x.1).collect();
+                base_ids.sort();
+                base_ids.dedup();
+                if base_ids.len() != base.rows.len() {
+                    s.tally("q_base_has_duplicates"); // C03
+                    continue;
+                }
+                if base.rows.len() != matching.len() { s.tally("q_base_differs_from_written"); }
+                let mut eids: Vec<u64> = resp.rows.iter().filter_map(|x| x.1).collect();
+                let have_ids = eids.len() == resp.rows.len();
+                eids.sort();
+                let distinct = have_ids && eids.windows(2).all(|w| w[0] != w[1]);
+                let from_base = eids.iter().all(|e| base_ids.binary_search(e).is_ok());
+                let bn = base.rows.len();
+                let want = limit.map_or(bn.saturating_sub(m), |l| l.min(bn.saturating_sub(m)));
+                let base_keys: Option<Vec<SV>> = if *ret_k { Some(vec![]) } else { base.rows.iter().map(|(cell, _)| key_of_cell(c, cell)).collect() };
+                let Some(keys) = base_keys else {
+                    s.tally("q_base_unreadable_cell"); // C07
+                    continue;
+                };
+                if !distinct || !from_base || resp.rows.len() != want {
+                    let class = if *ordered && distinct && from_base { e2e_class(c, &keys, flush_at.len()) } else { "-" };
+                    s.oracle_fail(i, class, &format!("{q}: returned {} rows (distinct={distinct} from_selection={from_base}), expected {want} of a selection of {bn}; flushes={} zone={zone} col={}", resp.rows.len(), flush_at.len(), col_name(c)));
+                    continue;
+                }
+                if *ret_k {
+                    // unordered with RETURN [k]: every k is a matching row's k
+                    s.oracle_ok(); // ids are distinct, from the selection, and as many as required
+                    continue;
+                }
+                let got: Option<Vec<SV>> = resp.rows.iter().map(|(cell, _)| key_of_cell(c, cell)).collect();
+                let Some(got) = got else {
+                    s.oracle_fail(i, "-", &format!("{q}: unreadable cell in {:?}", resp.rows.iter().map(|x| x.0.to_string()).collect::<Vec<_>>()));
+                    continue;
+                };
+                if !*ordered {
+                    // the returned keys are a sub-multiset of the matching keys
+                    let mut pool: Vec<&SV> = keys.iter().collect();
+                    let mut ok = true;
+                    for g in &got {
+                        match pool.iter().position(|p| ref_cmp(c, p, g) == Ordering::Equal) {
+                            Some(ix) => { pool.swap_remove(ix); }
+                            None => ok = false,
+                        }
+                    }
+                    if ok { s.oracle_ok(); } else { s.oracle_fail(i, "-", &format!("{q}: returned keys are not among the matching rows: {:?}", got.iter().map(tok).collect::<Vec<_>>())); }
+                    continue;
+                }
+                let mut reference: Vec<&SV> = keys.iter().collect();
+                reference.sort_by(|x, y| { let o = ref_cmp(c, x, y); if *desc { o.reverse() } else { o } });
+                let expect: Vec<&SV> = reference.iter().skip(m).take(limit.unwrap_or(usize::MAX)).cloned().collect();
+                let same = expect.len() == got.len() && expect.iter().zip(got.iter()).all(|(e, g)| ref_cmp(c, e, g) == Ordering::Equal);
+                if same {
+                    s.oracle_ok();
+                } else {
+                    let mut class = e2e_class(c, &keys, flush_at.len());
+                    if class == "-" && limit.is_some() {
+                        // diagnostic: the same ORDER BY with LIMIT = size of the selection makes the RLTE
+                        // planner give up (k = 10·limit exceeds every cumulative bound) → full scan
+                        let dq = q.split(" LIMIT ").next().unwrap().to_string() + &format!(" LIMIT {}", bn.max(1));
+                        if let Ok(dr) = rt.block_on(sys.cmd(&dq)) {
+                            let d = parse_rows(&dr, "v");
+                            let dk: Option<Vec<SV>> = d.rows.iter().map(|(cell, _)| key_of_cell(c, cell)).collect();
+                            if let Some(dk) = dk {
+                                let slice: Vec<&SV> = dk.iter().skip(m).take(limit.unwrap()).collect();
+                                let right = slice.len() == expect.len() && slice.iter().zip(expect.iter()).all(|(x, y)| ref_cmp(c, x, y) == Ordering::Equal);
+                                let got_sorted = got.windows(2).all(|w| { let o = ref_cmp(c, &w[0], &w[1]); if *desc { o != Ordering::Less } else { o != Ordering::Greater } });
+                                if right && got_sorted && !flush_at.is_empty() {
+                                    class = "rlte-preselection-drops-zones";
+                                }
+                            }
+                        }
+                    }
+                    s.oracle_fail(i, class, &format!("{q}: expected keys {:?} got {:?}; flushes={} zone={zone} col={}",
+                        expect.iter().map(|x| tok(x)).collect::<Vec<_>>(), got.iter().map(tok).collect::<Vec<_>>(), flush_at.len(), col_name(c)));
+                }
+            }
+            s.case(&format!("e2e {i}"), &summary.join(" "), true);
+        }
+        s.finish();
+        std::process::exit(0); // shard tasks keep the runtime alive
+    }
+
+    fn e2e_class(c: Col, keys: &[SV], _flushes: usize) -> &'static str {
+        match first_departure(c, keys) {
+            Some((x, y)) => pair_class(c, &keys[x], &keys[y]),
+            None => "-",
+        }
+    }
+
+    async fn wait_visible(sys: &Sys, ev: &str, n: usize) -> Result<(), String> {
+        for _ in 0..400 {
+            let resp = sys.cmd(&format!("QUERY {ev} RETURN [k]")).await?;
+            let mut d: Vec<i64> = parse_rows(&resp, "k").rows.iter().filter_map(|x| x.0.as_i64()).collect();
+            d.sort();
+            d.dedup();
+            if d.len() >= n {
+                return Ok(());
+            }
+            tokio::time::sleep(std::time::Duration::from_millis(5)).await;
+        }
+        Err(format!("stored events did not become visible ({n})"))
     }
 }
